@@ -12,6 +12,10 @@ Proof. intros A B r f b H. destruct r as [a|e]; cbn [bind] in H; [eauto | discri
 Ltac bind_inv H x Hx :=
   apply bind_ok in H; destruct H as (x & Hx & H).
 
+Definition US_PER_DAY : Z := 86400000000.
+
+Definition instant (off : Z) (x : dt) : Z := d_days x * US_PER_DAY + d_us x - off * 1000000.
+
 (* ------------------------------------------------------------------ wire *)
 
 Definition is_date_like (a : arg) : bool :=
@@ -323,10 +327,10 @@ Qed.
 (* what a leaf becomes *)
 Theorem leaf_calls : forall P start mr md,
   (forall rs, leaf_call P start mr md (ARule rs) = Ok (CSet mr rs)) /\
-  (forall t, leaf_call P start mr md (ADateTime t) = Ok (CDate md t)) /\
-  (forall d, leaf_call P start mr md (ADate d) = Ok (CDate md (mkDT d (d_us start) (Some 0)))) /\
+  (forall t, leaf_call P start mr md (ADateTime t) = Ok (CDate md (ensure_tz t))) /\
+  (forall d, leaf_call P start mr md (ADate d) = Ok (CDate md (mkDT d (d_us start) (d_tz start)))) /\
   (forall s t, P s = Ok t ->
-               leaf_call P start mr md (AStr s) = Ok (CDate md (mkDT (d_days t) (d_us start) (Some 0)))) /\
+               leaf_call P start mr md (AStr s) = Ok (CDate md (mkDT (d_days t) (d_us start) (d_tz start)))) /\
   (forall a, match a with ARule _ | ADateTime _ | ADate _ | AStr _ | ASeq _ _ => False | _ => True end ->
              leaf_call P start mr md a = Err (Internal "TypeError")).
 Proof.
@@ -335,11 +339,53 @@ Proof.
   - destruct a; try contradiction; reflexivity.
 Qed.
 
-(* for a start in UTC a date leaf lands exactly on the start's wall time in the START'S zone *)
-Theorem date_leaf_utc_partial : forall P start mr md d,
-  d_tz start = Some 0 ->
-  leaf_call P start mr md (ADate d) = Ok (CDate md (mkDT d (d_us start) (d_tz start))).
-Proof. intros. cbn [leaf_call]. unfold at_start_time. rewrite H. reflexivity. Qed.
+(* a date leaf is the occurrence-shaped value "that day at the start's wall time in the START'S zone":
+   it differs from the start only in the day, so for every zone offset it is the same instant as a
+   daily occurrence of that day *)
+Theorem date_leaf_in_start_zone : forall P start mr md d,
+  leaf_call P start mr md (ADate d) = Ok (CDate md (mkDT d (d_us start) (d_tz start))) /\
+  forall off, instant off (mkDT d (d_us start) (d_tz start)) - instant off start
+              = (d - d_days start) * US_PER_DAY.
+Proof. intros. split; [reflexivity|]. intro off. unfold instant. cbn [d_days d_us]. lia. Qed.
+
+(* every value handed to rdate / exdate by a leaf carries a zone when the start does *)
+Theorem leaf_dates_aware : forall P start mr md a m x,
+  d_tz start <> None ->
+  leaf_call P start mr md a = Ok (CDate m x) -> d_tz x <> None.
+Proof.
+  intros P start mr md a m x Hs H. destruct a; cbn [leaf_call] in H; try discriminate.
+  - destruct (P s) as [t|e]; cbn [bind] in H; [|discriminate]. inversion H; subst. exact Hs.
+  - inversion H; subst. exact Hs.
+  - inversion H; subst. unfold ensure_tz. destruct (d_tz t) eqn:E; cbn [d_tz]; congruence.
+Qed.
+
+(* until: what the engine receives for each kind of value *)
+Theorem until_normal_forms : forall P start,
+  (forall a, truthy a = false -> norm_until P start a = Ok None) /\
+  (forall d, norm_until P start (ADate d) = Ok (Some (ensure_tz (mkDT d (d_us start) (d_tz start))))) /\
+  (forall t, norm_until P start (ADateTime t) = Ok (Some (ensure_tz t))) /\
+  (forall s t, s <> "" -> is_datetime s = true -> parse_dts P s = Ok t ->
+               norm_until P start (AStr s) = Ok (Some t)) /\
+  (forall s t, s <> "" -> is_datetime s = false -> P s = Ok t ->
+               norm_until P start (AStr s) = Ok (Some (ensure_tz (mkDT (d_days t) (d_us start) (d_tz start))))).
+Proof.
+  intros P start. splits.
+  - intros a H. unfold norm_until. rewrite H. reflexivity.
+  - reflexivity.
+  - reflexivity.
+  - intros s t Hne Hd Hp. unfold norm_until. cbn [truthy].
+    destruct (String.eqb_spec s ""); [contradiction|]. cbn [negb]. rewrite Hd, Hp. reflexivity.
+  - intros s t Hne Hd Hp. unfold norm_until. cbn [truthy].
+    destruct (String.eqb_spec s ""); [contradiction|]. cbn [negb]. rewrite Hd, Hp. reflexivity.
+Qed.
+
+(* an aware value stays the instant it denotes: nothing is relabelled *)
+Theorem until_keeps_aware_datetime : forall P start t off,
+  d_tz t = Some off -> norm_until P start (ADateTime t) = Ok (Some t).
+Proof.
+  intros P start t off H. cbn [norm_until truthy negb]. unfold norm_until. cbn [truthy negb].
+  unfold ensure_tz. rewrite H. reflexivity.
+Qed.
 
 (* ------------------------------------------------------------------ rows *)
 
@@ -367,10 +413,6 @@ Theorem for_each_exact : forall p stream,
 Proof. intros. split; [reflexivity | apply map_length]. Qed.
 
 (* ------------------------------------------------------------------ order *)
-
-Definition US_PER_DAY : Z := 86400000000.
-
-Definition instant (off : Z) (x : dt) : Z := d_days x * US_PER_DAY + d_us x - off * 1000000.
 
 Lemma In_firstn : forall A n (l : list A) y, In y (firstn n l) -> In y l.
 Proof.
